@@ -33,7 +33,9 @@ CASES = {"quick": 4800, "thorough": 50000}
 
 
 def strategy(tier):
-    return st.one_of(gen_macro.macro_programs(single_file=True), gen_macro.macro_programs(single_file=False), gen_macro.macro_programs(single_file=False))
+    from vf.core import weighted
+
+    return weighted((1, gen_macro.macro_programs(single_file=True)), (2, gen_macro.macro_programs(single_file=False)))
 
 
 def canonical_single_file(macros, routines):
